@@ -32,6 +32,28 @@ def _order_preserving_iter(e: ast.AST, names: set) -> Optional[str]:
     return None
 
 
+def _flat_zip(lp: ast.For) -> ast.For:
+    """for a, (b, c) in zip(X, zip(Y, Z))  ->  for a, b, c in zip(X, Y, Z)   (the same iterations; a copy)"""
+    import copy as _copy
+    it, tg = lp.iter, lp.target
+    if isinstance(it, ast.Call) and unparse(it.func) == "zip" and isinstance(tg, ast.Tuple) and len(it.args) == len(tg.elts) and not it.keywords:
+        args, elts, changed = [], [], False
+        for a, t in zip(it.args, tg.elts):
+            if isinstance(a, ast.Call) and unparse(a.func) == "zip" and isinstance(t, ast.Tuple) and len(a.args) == len(t.elts) and not a.keywords:
+                args += a.args
+                elts += t.elts
+                changed = True
+            else:
+                args.append(a)
+                elts.append(t)
+        if changed:
+            new = _copy.copy(lp)
+            new.iter = ast.copy_location(ast.Call(func=it.func, args=args, keywords=[]), it)
+            new.target = ast.copy_location(ast.Tuple(elts=elts, ctx=ast.Store()), tg)
+            return new
+    return lp
+
+
 # --------------------------------------------------------------------------- R1
 def rule_r1(ctx) -> List[R.Inst]:
     M = ctx.M
@@ -122,11 +144,12 @@ def rule_r1(ctx) -> List[R.Inst]:
     q2 = ST + "._update"
     fn2 = M.nfn(q2, subst=True)
     file2, line2 = fn_loc(M, q2)
-    loops = [n for n in walk_no_nested(fn2.node) if isinstance(n, ast.For)]
+    loops = [_flat_zip(n) for n in walk_no_nested(fn2.node) if isinstance(n, ast.For)]
     good = False
     if len(loops) == 1 and isinstance(loops[0].iter, ast.Call) and unparse(loops[0].iter.func) == "zip":
         args = [unparse(a) for a in loops[0].iter.args]
-        good = args == ["self._unstacked", "self._ixs[:-1]", "self._ixs[1:]"]
+        # zip stops at its shortest operand: (lists, ixs, ixs[1:]) pairs exactly like (lists, ixs[:-1], ixs[1:])
+        good = args in (["self._unstacked", "self._ixs[:-1]", "self._ixs[1:]"], ["self._unstacked", "self._ixs", "self._ixs[1:]"])
     if good:
         insts.append(R.ok("C12.R1", "_update.zip", file2, loops[0].lineno, idiom="zip(lists, ixs[:-1], ixs[1:])"))
     else:
@@ -242,7 +265,7 @@ def rule_r4(ctx) -> List[R.Inst]:
     q = ST + "._update"
     fn = M.nfn(q, subst=True)
     file, line = fn_loc(M, q)
-    loops = [n for n in walk_no_nested(fn.node) if isinstance(n, ast.For)]
+    loops = [_flat_zip(n) for n in walk_no_nested(fn.node) if isinstance(n, ast.For)]
     if len(loops) != 1 or not isinstance(loops[0].target, ast.Tuple) or len(loops[0].target.elts) != 3:
         return [R.undec("C12.R4", "_update.projection", file, line, "write-back loop not recognised")]
     o, i, j = [unparse(t) for t in loops[0].target.elts]
